@@ -1,0 +1,30 @@
+//go:build verif
+
+package discovery
+
+import (
+	"bytes"
+	"regexp"
+
+	"github.com/prometheus/common/model"
+
+	"github.com/cloudflare/pint/internal/parser"
+)
+
+// VerifReadRules parses content the same way GlobFinder.Find does for one file.
+func VerifReadRules(path string, content []byte, isStrict bool, schema parser.Schema, names model.ValidationScheme, allowedOwners []*regexp.Regexp) ([]Entry, error) {
+	p := parser.NewParser(isStrict, schema, names)
+	el, err := readRules(path, path, bytes.NewReader(content), p, allowedOwners)
+	if err != nil {
+		return nil, err
+	}
+	entries := make([]Entry, 0, len(el))
+	for _, e := range el {
+		e.State = Noop
+		if len(e.ModifiedLines) == 0 {
+			e.ModifiedLines = e.Rule.Lines.Expand()
+		}
+		entries = append(entries, e)
+	}
+	return entries, nil
+}
